@@ -15,7 +15,7 @@ from vmon.libutil import load_definition, monitored
 LEVEL = "exploration"
 SHARDS = {"quick": 16, "thorough": 16}
 MUST = ["outcome.ok", "outcome.unrecognized", "unrec.abstract-dead-end", "unrec.ambiguous", "end.concrete-dead-end",
-        "end.leaf", "depth.>=2", "nested.expanded", "apid-name.other", "generator.error_objects", "trees.enumerated"]
+        "end.leaf", "depth.>=2", "nested.expanded", "apid-name.other", "generator.error_objects", "trees.enumerated", "reparse.same_raw_object"]
 RULE = ("document = container tree; packet = header + steering fields + one byte per container on the path; the library's "
         "outcome (item names in order, values, header/user_data views, unrecognized+partial data, or normal end) must "
         "equal the reference walk. Enumerated completely: all trees with <=2 non-root containers x criteria pool of 13 "
@@ -131,6 +131,11 @@ def exercise(ctx, doc, shape_sig, apids=(100,), via_generator=False, sample=Fals
                 ctx.count("depth.>=2")
             if any(n == "NB" for n, _ in out.items):
                 ctx.count("nested.expanded")
+            if (s1 + s2) % 5 == 0:
+                why = harness.reparse_same_object(defn, raw)
+                ctx.count("reparse.same_raw_object")
+                if why:
+                    ctx.violation("reparse/same-raw-object", why, {"shape": shape_sig, "raw": raw})
             for mech, msg in harness.judge_single(ctx, info, raw, step, pkt, out):
                 ctx.violation(mech if not mech.startswith("exception/") else mech + f"/{cls}", msg,
                               {"shape": shape_sig, "s1": s1, "s2": s2, "apid": apid, "raw": raw, "model_path": out.path,
